@@ -16,7 +16,9 @@ typedef struct {
   uint8_t ops[MS_MAXT];  /* pending op kind of each enabled thread (for readable traces) */
 } ms_rec;
 enum { MS_COMPLETE = 0, MS_DEADLOCK = 1, MS_LIVELOCK = 2, MS_DIVERGED = 3 };
-typedef struct { int outcome; int nrec; int nsteps; uint64_t final_state; int unfinished_mask; } ms_result;
+typedef struct { int outcome; int nrec; int nsteps; uint64_t final_state; int unfinished_mask;
+  /* memory-access layer (only when the code under test is compiled with access hooks, see ms_mem.c) */
+  int nraces; int race_kind; /* 1 write-write, 2 write-then-read, 3 read-then-write */ int race_t1, race_t2; uintptr_t race_addr, race_pc1, race_pc2; uint64_t naccesses; char race_what[48]; } ms_result;
 
 /* run body() as thread 0 under the scheduler, following prefix[0..n) and then choice 0; does not return on deadlock:
  * the result and trace are written to out_fd and the process _exits. On completion returns normally. */
@@ -25,6 +27,14 @@ void ms_end(uint64_t final_hash);   /* called by thread 0 when the body is done:
 int ms_nthreads_created(void);
 void* ms_thread_arg(int id);        /* the arg given to pthread_create for thread id (1-based worker ids) */
 const char* ms_opname(int op);
+/* Memory-access layer. The code under test is compiled with -fsanitize=thread but linked against ms_mem.c instead of the
+ * TSan runtime, so every load / store it performs calls ms_mem_access. (a) Accesses to addresses for which watch_cb returns
+ * non-zero (the protocol variables) become scheduling points (OP_LOAD / OP_STORE) like lock and unlock; (b) every access is
+ * checked against a vector-clock happens-before relation built from create/start, exit/join and unlock/lock edges: two
+ * accesses to the same address by different threads, at least one a write, not ordered by it, are a data race. */
+void ms_mem_enable(int (*watch_cb)(const void* addr), const char* (*describe_cb)(const void* addr));   /* describe_cb names an address for reports */
+void ms_mem_access(const void* addr, int size, int is_write, const void* pc);
+void ms_mem_fresh(const void* addr, size_t size);   /* memory handed out by an allocator: forget its access history */
 #ifdef __cplusplus
 }
 #endif
